@@ -944,7 +944,12 @@ func (s *session) redialForClient(oldConn net.Conn) bool {
 	defer s.lock.Unlock()
 	// Avoid repeated calls from write and readDisconnected methods
 	if oldConn != s.getConn() {
-		return true
+		// Someone else has run a redial meanwhile. The socket carries another
+		// connection in either case (an attempt that connected and was then
+		// refused by a dial hook has replaced it too): only an established
+		// session counts as re-established. After a round that failed, the
+		// caller ends the session (reader) or gives up (writer).
+		return s.getStatus() == statusOk
 	}
 	if s.tryChangeStatus(statusRedialing, statusOk, statusPassiveClosing, statusPassiveClosed, statusRedialFailed) {
 		return s.redialForClientLocked()
